@@ -5,7 +5,8 @@
 // through it) the canonical heap shape: sharing structure and every reference count.
 // Round 2: `assignstr i p j sp` / `assignnode i p j sp k` hand operator=(const String&/List&/Array&/HashMap&) a
 // reference INTO the payload of variable j (possibly the assigned Variant itself); `csets` / `csetstr` / `csetnode`
-// run the converting constructors; scalar tokens dinf / d-inf / d-0 (judged by the oracle in checks/C07.py).
+// run the converting constructors; scalar tokens dinf / d-inf / d-0 / dnan (judged by the oracles in checks/C07.py).
+// Round 5: isNull() is printed as the first field of every coercion token.
 #include "vh.hpp"
 #include <math.h>
 #define private public
@@ -57,6 +58,7 @@ static double dbl_of(const char* t)
   if(!strcmp(t, "dinf")) return INFINITY;
   if(!strcmp(t, "d-inf")) return -INFINITY;
   if(!strcmp(t, "d-0")) return -0.0;
+  if(!strcmp(t, "dnan")) return NAN;      // outside the property ("other than NaN"): the spec side expects nothing of it
   long long m = strtoll(t + 1, 0, 10); const char* u = strchr(t, '_'); int e = atoi(u + 1);
   return ldexp((double)m, e);
 }
@@ -267,6 +269,7 @@ static bool cast_ok(const Variant& v, int which) { return v.getType() != Variant
 
 static void coercions(const Variant& v)
 {
+  printf("%d,", v.isNull() ? 1 : 0);          // round 5: isNull() is part of "reports the type it was last given"
   printf("%d,", v.toBool() ? 1 : 0);
   if(cast_ok(v, 0)) printf("%d,", v.toInt()); else printf("ub,");
   if(cast_ok(v, 1)) printf("%u,", v.toUInt()); else printf("ub,");
